@@ -78,11 +78,15 @@ def params(tier):
 
 def shards(tier, seed):
     p = params(tier)
+    scale = float(os.environ.get("VERIF_C18_SCALE", "1"))      # development aid: shrink the random parts
+    if scale != 1:
+        for k in ("expr_rand", "str_rand", "plural"):
+            p[k] = max(1, int(p[k] * scale))
     return [{"seed": seed * 1000 + i, "idx": i, "nsh": NSH, "tier": tier, "p": p} for i in range(NSH)]
 
 
 def floors(tier):
-    f = {"oracle.expr.rendering": 20000, "oracle.expr.ast": 5000, "sets.expr.pairs": 648, "sets.expr.unary_pairs": 16 * 18 * 3,
+    f = {"oracle.expr.rendering": 20000, "oracle.expr.ast": 5000, "sets.expr.pairs": 645, "sets.expr.unary_pairs": 850,
          "sets.expr.renderings": 5, "sets.str.fns": 15, "sets.locales": 96, "sets.locale_settings": 8,
          "oracle.formatnum.forward": 96 * 84, "oracle.formatnum.reverse": 96 * 84, "oracle.formatnum.roundtrip": 96 * 84,
          "oracle.plural": 500, "counters.plural.n=1": 50, "counters.grid.parts_completed": NSH,
@@ -110,6 +114,8 @@ class Mon:
         self.obs = obs
         self.sampled = set()
         self.idx = 0
+        self.calls = 0
+        self.shrink_memo = {}
         kw = {"lang_code": lang} if lang else {}
         self.cm = fresh(pages=[tmpl("1x", "{{{1}}}")], **kw)
         self.ctx = self.cm.__enter__()
@@ -143,6 +149,16 @@ class Mon:
 
     def expand(self, text):
         """('ok', str) | ('raises', sig) | ('no-return', '')"""
+        # a context keeps one cookie per distinct call until start_page() (at most 57k per page): work in
+        # "pages" of 1000 calls, and make sure the context still answers a fixed probe at every page break
+        self.calls += 1
+        if self.calls % 1000 == 0:
+            try:
+                if self.ctx.expand("{{#len:ab}}{{#expr:1+2*3}}") != "27":
+                    self.obs.inconclusive.append("context stopped answering the fixed probe (results since the last page break are unreliable)")
+            except Exception as e:
+                self.obs.inconclusive.append("fixed probe raised " + exc_sig(e))
+            self.ctx.start_page("Pg")
         try:
             with cpu_guard(20):
                 return "ok", self.ctx.expand(text)
@@ -363,11 +379,19 @@ def shrink_args(mon, fn, args, max_tests=250):
     """Greedy delta-minimisation of a failing (undecorated) call."""
     tests = [0]
 
+    memo = mon.shrink_memo
+
     def fails(a):
         tests[0] += 1
         if tests[0] > max_tests:
             return False
-        return str_eval(mon, fn, a)[0] == "bad"
+        k = (fn, tuple(a))
+        r = memo.get(k)
+        if r is None:
+            r = str_eval(mon, fn, a)[0] == "bad"
+            if len(memo) < 200000:
+                memo[k] = r
+        return r
 
     args = list(args)
     ints = INT_POS.get(fn, ())
@@ -849,7 +873,7 @@ def run_shard(spec):
         expr_case(mon, obs, X.gen_ast(rng, d), rng, "random")
     # ---- string functions, grid
     for i, (fn, args) in enumerate(grid(p)):
-        if i % nsh == idx:
+        if (i + i // nsh) % nsh == idx:          # rotating slices: every shard sees every function / argument class
             str_case(mon, obs, fn, args, None, "grid")
     obs.count("grid.parts_completed")
     # ---- string functions, random hostile part
